@@ -272,6 +272,7 @@ Definition ambient_whitelist : list (str * str * str) :=
     (lit "os-getenv", lit "mcp/http_transport", lit "create_mcp_server");
     (* -- vocabulary hydration: CLI `hydrate` only (not one of the four tools); manifests carry a timestamp field -- *)
     (lit "path-resolve", lit "core/hydrator", lit "validate_source_uri");
+    (lit "path-resolve", lit "core/hydrator", lit "_resolve_without_links");
     (lit "path-resolve", lit "core/hydrator", lit "hydrate");
     (lit "path-resolve", lit "core/hydrator", lit "_create_manifest_section");
     (lit "datetime", lit "core/hydrator", lit "_create_manifest_section");
